@@ -132,7 +132,15 @@ InvariantOK(pl, res1) ==
    Trigger and residual: the invariant would not decrease had the pool kept three more ask units. *)
 RoundingOnly(pl, res1, a) ==
   pl.kind = "ss" /\ AllPositive(pl.res) /\ AllPositive(res1) /\ InvariantOK(pl, [res1 EXCEPT ![a] = BAdd(@, BNat(3))])
-F7(pl, res1, a) == IF RoundingOnly(pl, res1, a) THEN "F7" ELSE ""
+(* recorded finding F11: the swap path's invariant D is only converged to 10^-12 tokens (10^6 units of an 18-digit
+   fixed point), so on pools whose largest precision is 18 decimals the invariant can additionally move by that much.
+   Trigger and residual: the invariant would not decrease had the pool kept 3 ask units plus 2 * 10^6 units of the
+   pool's largest precision. *)
+ConvergenceOnly(pl, res1, a) ==
+  pl.kind = "ss" /\ AllPositive(pl.res) /\ AllPositive(res1)
+  /\ LET extra == BAdd(BNat(3), BAdd(BDiv(BNat(2000000), P!Pow10(MaxDec(pl) - pl.dec[a])), One))
+     IN InvariantOK(pl, [res1 EXCEPT ![a] = BAdd(@, extra)])
+F7(pl, res1, a) == IF RoundingOnly(pl, res1, a) THEN "F7" ELSE IF MaxDec(pl) >= 12 /\ ConvergenceOnly(pl, res1, a) THEN "F11" ELSE ""
 (* C19: the gross output against the exact solution of the invariant, tolerance = 2 output units plus the
    value of 2 offered units (taken at the larger of the 1:1 peg and the average rate of this trade) *)
 QuoteTolScaled(pl, o, a, dx, gross) ==
@@ -222,6 +230,7 @@ RouteFold(s, e, k, acc, fc) ==
                     [pools |-> [acc.pools EXCEPT ![h.pool].res = res1],
                      inv |-> acc.inv /\ InvariantOK(pl, res1),
                      invK |-> acc.invK /\ (InvariantOK(pl, res1) \/ RoundingOnly(pl, res1, a)),
+                     invK2 |-> acc.invK2 /\ (InvariantOK(pl, res1) \/ F7(pl, res1, a) # ""),
                      gate |-> acc.gate /\ pl.sw,
                      fees |-> acc.fees /\ feeok,
                      chain |-> acc.chain /\ ph.in = acc.next,
@@ -236,7 +245,11 @@ JudgeRoute(s, e, p) ==
                     /\ e.hops[1].in = e.funds[1].d
                     /\ \A k \in 1..(n - 1) : e.hops[k + 1].in = e.hops[k].out
       good == e.ok /\ wellformed /\ Len(e.per_hop) = n
-      acc == RouteFold(s, e, 1, [pools |-> Pools(s), inv |-> TRUE, invK |-> TRUE, gate |-> TRUE, fees |-> TRUE, chain |-> TRUE, next |-> e.funds[1].a, T |-> <<>>], s.pmcfg.fc)
+      \* enough structure to follow the reserves, even if a hop names the same denom twice
+      followable == /\ e.ok /\ n > 0 /\ Len(e.funds) = 1 /\ Len(e.per_hop) = n
+                    /\ \A k \in 1..n : e.hops[k].pool \in DOMAIN Pools(s)
+                                       /\ HasDenom(Pools(s)[e.hops[k].pool], e.hops[k].in) /\ HasDenom(Pools(s)[e.hops[k].pool], e.hops[k].out)
+      acc == RouteFold(s, e, 1, [pools |-> Pools(s), inv |-> TRUE, invK |-> TRUE, invK2 |-> TRUE, gate |-> TRUE, fees |-> TRUE, chain |-> TRUE, next |-> e.funds[1].a, T |-> <<>>], s.pmcfg.fc)
       T == FundsT(e, "pm") \o Tr("pm", Recv(e), e.hops[n].out, e.final) \o acc.T
       simple == \A j, k \in 1..n : j # k => e.hops[j].pool # e.hops[k].pool
   IN [ C04_route_wellformed_only |-> G(e.ok, wellformed /\ Len(e.per_hop) = n),
@@ -244,7 +257,7 @@ JudgeRoute(s, e, p) ==
        C04_route_reserves      |-> G(good, Pools(p) = acc.pools),
        C04_route_destinations  |-> G(good, MoneyMoves(s, p, T) /\ p.fm.pos = s.fm.pos),
        C04_route_fee_floors    |-> G(good, acc.fees),
-       C03_route_invariants_non_decreasing |-> GK(good, acc.inv, IF acc.invK THEN "F7" ELSE ""),
+       C03_route_invariants_non_decreasing |-> GK(followable, acc.inv, IF acc.invK THEN "F7" ELSE IF acc.invK2 THEN "F11" ELSE ""),
        C17_route_gated         |-> G(good, acc.gate),
        C12_route_quote_equals_execution |-> G(good /\ simple, e.quote.ok /\ e.quote.ret = e.final),
        C13_minimum_receive_enforced |-> G(good /\ e.min_receive.set, BLe(e.min_receive.v, e.final)),
